@@ -12,7 +12,7 @@ table is explicit - no transitive closure - and every line says why the clause i
 
 ORDER = ["R01.1", "R01.2", "R01.3", "R01.4", "R01.5"]
 UNARY = ["R01.7", "R01.8"]
-CONV = ["R03.2", "R03.3", "R03.4", "R03.5", "R03.6"]
+CONV = ["R03.2", "R03.3", "R03.4", "R03.5", "R03.6", "R03.7"]
 NAMES = ["R04.2", "R04.3", "R04.4", "R04.5"]
 
 IMPORTS = {
